@@ -613,7 +613,7 @@ func (c *listenerCase) pkt(d listenerDg) {
 		return
 	}
 	// (2) creation / one Accept per new peer
-	room := p.snap.qlen < cap(c.l.chAccepts)
+	room := p.snap.qlen < cap(c.l.chAccepts) && !c.lclosed // a closed listener creates nothing
 	wantNew, wantGone, untouched := false, false, false
 	switch {
 	case !d.ok:
@@ -903,10 +903,33 @@ func (c *listenerCase) closeListener() {
 	c.rep.Steps++
 	c.rep.Distribution["op:close-listener"]++
 	c.lclosed = true
+	p := c.pre()
 	c.trace = append(c.trace, "L")
 	c.lg.printf("L\n")
 	c.l.Close()
-	c.lg.printf("R %s\n", c.stateLine(c.snap()))
+	q := c.snap()
+	c.lg.printf("R %s\n", c.stateLine(q))
+	// Listener.Close closes exactly the sessions nobody accepted; accepted ones are untouched
+	c.rep.Monitors["listener-close(closes the queued sessions only)"]++
+	if q.qlen != 0 {
+		c.violate("listener-missed-accept", fmt.Sprintf("Listener.Close left %d sessions in the backlog", q.qlen))
+		return
+	}
+	for _, in := range c.byID {
+		if in.accepted {
+			if p.dig[in.s] != c.digest(in.s) || p.inTab[in.s] != (q.tab[in.key] == in.s) {
+				c.violate("listener-cross-session-effect", fmt.Sprintf("Listener.Close changed the accepted session %d", in.id))
+				return
+			}
+			continue
+		}
+		in.accepted = true // it left the queue
+		c.accOrder = append(c.accOrder, in.id)
+		if !in.s.isClosed() || (q.tab[in.key] == in.s && c.parked[in.s] == nil) {
+			c.violate("listener-missed-accept", fmt.Sprintf("Listener.Close left the queued session %d open or in the table", in.id))
+			return
+		}
+	}
 }
 
 func listenerDrain(s *UDPSession) [][]byte {
@@ -1671,7 +1694,18 @@ func listenerCloseRaceCase(t *testing.T, rep *vreport) {
 		rep.violate("listener-harness", "close-race: Close did not close die within 5 s", map[string]any{"steps": steps[:3]})
 		return
 	}
-	l.packetInput(seg(2, 0), a)
+	pdone := make(chan struct{})
+	go func() { l.packetInput(seg(2, 0), a); close(pdone) }()
+	select {
+	case <-pdone:
+	case <-time.After(10 * time.Second):
+		// it waits for the lock of the session of conversation 1: it is being dispatched there
+		rep.violate("listener-conv-merged", "close-race: the first datagram of conversation 2 is dispatched to the (closing) session of conversation 1", map[string]any{"steps": steps[:4]})
+		s1.mu.Unlock()
+		<-pdone
+		<-done
+		return
+	}
 	s1.mu.Unlock()
 	<-done
 	var s2 *UDPSession
